@@ -30,7 +30,7 @@ META = dict(
                'adsg_core.graph.adsg_nodes.ConnectorDegreeGroupingNode.get_combined_deg',
                'adsg_core.graph.adsg_nodes.ConnectionChoiceNode.to_assign_node', 'adsg_core.optimization.assign_enc.matrix.Node.__init__'],
     bounds=dict(templates='hand-written DSG templates (pools/dsg.py): <= 3x3 connectors, <= 3 selection choices, <= 24 scenarios',
-                matrices='entries any non-negative integer (unbounded)', grouping='<= 3 members, degrees 0..3 symbolic, queried degree any integer',
+                matrices='entries any non-negative integer (unbounded)', grouping='<= 2 members with degrees 0..3 symbolic, 3 members with degrees 0..2 symbolic; queried degree any integer',
                 connector='deg_min, deg_max, degree any integers'),
     outside=['graphs other than the templates (graph-structure quantifier)',
              'the parallel-connection cap P is taken from the library\'s own effective settings per view (it is a library '
@@ -446,26 +446,26 @@ def _run_scenario(inst, res):
 # grouping connector / connector construction
 
 
-def _member(kind, i, cond_zero=False):
-    """a ConnectorNode whose degree data are symbolic; returns (factory, pre, membership(d) formula, vars)"""
+def _member(kind, i, cond_zero=False, hi=3):
+    """a ConnectorNode whose degree data are symbolic (values 0..hi); returns (factory, pre, membership(d) formula)"""
     from adsg_core import ConnectorNode
     if kind == 'list':
         names = [f'g{i}_a', f'g{i}_b']
         vs = [z3.Int(n) for n in names]
-        pre = [vs[0] >= 0, vs[0] <= 3, vs[1] >= 0, vs[1] <= 3]
+        pre = [vs[0] >= 0, vs[0] <= hi, vs[1] >= 0, vs[1] <= hi]
         mk = lambda: ConnectorNode(f'M{i}', deg_list=[sym_int(names[0]), sym_int(names[1])])  # noqa
         mem = lambda d: z3.Or(d == vs[0], d == vs[1])  # noqa
         return mk, pre, mem
     if kind == 'range':
         names = [f'g{i}_lo', f'g{i}_hi']
         vs = [z3.Int(n) for n in names]
-        pre = [vs[0] >= 0, vs[0] <= 2, vs[1] >= vs[0], vs[1] <= 3]
+        pre = [vs[0] >= 0, vs[0] <= hi-1, vs[1] >= vs[0], vs[1] <= hi]
         mk = lambda: ConnectorNode(f'M{i}', deg_min=sym_int(names[0]), deg_max=sym_int(names[1]))  # noqa
         mem = lambda d: z3.And(d >= vs[0], d <= vs[1])  # noqa
         return mk, pre, mem
     names = [f'g{i}_min']
     vs = [z3.Int(n) for n in names]
-    pre = [vs[0] >= 0, vs[0] <= 3]
+    pre = [vs[0] >= 0, vs[0] <= hi]
     mk = lambda: ConnectorNode(f'M{i}', deg_min=sym_int(names[0]), deg_max=math.inf)  # noqa
     mem = lambda d: d >= vs[0]  # noqa
     return mk, pre, mem
@@ -474,7 +474,7 @@ def _member(kind, i, cond_zero=False):
 def _run_grouping(inst, res):
     from adsg_core import ConnectorDegreeGroupingNode, ConnectionChoiceNode
     kinds, cond = inst['members'], inst['cond']
-    parts = [_member(k, i) for i, k in enumerate(kinds)]
+    parts = [_member(k, i, hi=3 if len(kinds) <= 2 else 2) for i, k in enumerate(kinds)]  # three members: degrees 0..2
     pre = [c for _, p, _ in parts for c in p]
     d = z3.Int('d')
 
@@ -487,7 +487,7 @@ def _run_grouping(inst, res):
         node = ConnectionChoiceNode.to_assign_node(grp, is_conditional=cond)
         conns = None if node.conns is None else [x if not is_sym(x) else x for x in node.conns]
         return valid, conns, node.min_conns
-    ex = explore(run, pre=pre, max_paths=20000, time_cap_s=INSTANCE_CAP_S/2)
+    ex = explore(run, pre=pre, max_paths=60000, time_cap_s=900 if len(kinds) > 2 else INSTANCE_CAP_S/2)
     absorb(res, ex)
     if not ex.complete:
         res['status'] = INCONCLUSIVE
